@@ -462,17 +462,24 @@ func (g *c07gen) comp(depth int, underHook bool) *c07comp {
 	case x < 62:
 		return &c07comp{kind: ckSamp, kids: []*c07comp{g.comp(depth-1, underHook)}}
 	case x < 72:
-		return &c07comp{kind: ckHook, kids: []*c07comp{g.comp(depth-1, true)}}
+		inner := g.comp(depth-1, true)
+		if r.Chance(35) && !inner.minHi() {
+			// a wrapped core that declines Info entries: the hooks must not run for them
+			inner = &c07comp{kind: ckFilt, thr: true, kids: []*c07comp{inner}}
+		}
+		return &c07comp{kind: ckHook, kids: []*c07comp{inner}}
 	case x < 84:
 		k := g.comp(depth-1, underHook)
-		if underHook {
-			return k // no level filter beneath a hooked core (C05 owns hooked.Check's registration condition)
-		}
 		thr := r.Bool() || k.minHi()
 		return &c07comp{kind: ckFilt, thr: thr, kids: []*c07comp{k}}
 	default:
 		g.nlazy++
-		return &c07comp{kind: ckLazy, fs: g.fields(r.Range(0, 2), 40), kids: []*c07comp{g.comp(depth-1, underHook)}}
+		inner := g.comp(depth-1, underHook)
+		if r.Chance(30) && !inner.minHi() {
+			// an original core that rejects Info entries: a Check at Info must not evaluate the lazy fields
+			inner = &c07comp{kind: ckFilt, thr: true, kids: []*c07comp{inner}}
+		}
+		return &c07comp{kind: ckLazy, fs: g.fields(r.Range(0, 2), 40), kids: []*c07comp{inner}}
 	}
 }
 
@@ -728,6 +735,9 @@ func c07directed(c *Ctx) {
 			{kind: ckHook, kids: []*c07comp{{kind: ckTee, kids: []*c07comp{{kind: ckObs}, {kind: ckJSON}}}}},
 			{kind: ckFilt, thr: true, kids: []*c07comp{{kind: ckJSON}}},
 			{kind: ckTee, kids: []*c07comp{{kind: ckFilt, thr: true, kids: []*c07comp{{kind: ckObs}}}, {kind: ckJSON}}},
+			// an accepting core first, then a hooked core whose wrapped core declines Info entries
+			{kind: ckTee, kids: []*c07comp{{kind: ckJSON}, {kind: ckHook, kids: []*c07comp{{kind: ckFilt, thr: true, kids: []*c07comp{{kind: ckObs}}}}}}},
+			{kind: ckTee, kids: []*c07comp{{kind: ckObs}, {kind: ckSamp, kids: []*c07comp{{kind: ckHook, kids: []*c07comp{{kind: ckFilt, thr: true, kids: []*c07comp{{kind: ckConsole}}}}}}}}},
 		}
 	}
 	type builder func(g *c07gen, p *c07prog)
@@ -819,7 +829,7 @@ func c07directed(c *Ctx) {
 		}
 	}
 	// lazy cores in the root composition, shared by the root logger and its Named/Sugar clones
-	for v := 0; v < 4; v++ {
+	for v := 0; v < 5; v++ {
 		g := newC07gen(NewRNG(uint64(2000 + v)))
 		lz := func(k string, inner *c07comp) *c07comp {
 			g.nlazy++
@@ -833,8 +843,11 @@ func c07directed(c *Ctx) {
 			comp = &c07comp{kind: ckTee, kids: []*c07comp{{kind: ckFilt, thr: true, kids: []*c07comp{lz("under-filter", &c07comp{kind: ckJSON})}}, lz("r2", &c07comp{kind: ckObs})}}
 		case 2:
 			comp = lz("outer", &c07comp{kind: ckSamp, kids: []*c07comp{lz("inner", &c07comp{kind: ckConsole})}})
-		default:
+		case 3:
 			comp = &c07comp{kind: ckFilt, thr: true, kids: []*c07comp{lz("r", &c07comp{kind: ckTee, kids: []*c07comp{{kind: ckJSON}, {kind: ckObs}}})}}
+		default:
+			// the lazy core's original core rejects Info: the Info calls must leave it unevaluated
+			comp = &c07comp{kind: ckTee, kids: []*c07comp{{kind: ckObs}, lz("over-filter", &c07comp{kind: ckFilt, thr: true, kids: []*c07comp{{kind: ckJSON}}})}}
 		}
 		p := newC07prog()
 		n := g.derive(p, 0, stNamed, c07fields{}, []byte("n"))
